@@ -37,7 +37,7 @@ def _match(pattern: str, tag: str) -> bool:
 def effect_tag(e) -> str:
     kind, detail, _ = e
     if kind == "send":
-        return f"send:{detail.cls if detail.kind == 'new' else '?'}"
+        return f"send:{detail.cls if detail is not None and detail.kind == 'new' else '?'}"
     if kind == "user":
         if detail.kind == "prim_of_pdu":
             return "user:pdu"
